@@ -69,12 +69,28 @@ type helperRole struct {
 	f     *ssa.Function
 	param int // index in f.Params, or -1
 	free  int // index in f.FreeVars, or -1
+	field int // >= 0: the role is this field of the (struct-typed) parameter: an options struct
 }
 
 func (r helperRole) valid() bool { return r.param >= 0 || r.free >= 0 }
 
 // is: v is the role's value inside the helper (the parameter, or a load of the captured variable).
 func (r helperRole) is(v ssa.Value) bool {
+	if r.param >= 0 && r.field >= 0 {
+		p := r.f.Params[r.param]
+		if fv, ok := v.(*ssa.Field); ok && fv.X == ssa.Value(p) && fv.Field == r.field {
+			return true
+		}
+		// the parameter spilled to its local: a load of &local.field, the local's only store being the parameter
+		if base, fld, ok := core.LoadOfField(v); ok && fld == r.field {
+			if al, ok := base.(*ssa.Alloc); ok {
+				if st := onlyStore(al); st != nil && st.Val == ssa.Value(p) {
+					return true
+				}
+			}
+		}
+		return false
+	}
 	if r.param >= 0 {
 		return v == ssa.Value(r.f.Params[r.param])
 	}
@@ -101,7 +117,7 @@ func writeOnceCapture(f *ssa.Function, i int) bool {
 
 // helperRoles finds the query (string) and mask (int) inputs of the JSON helper.
 func helperRoles(f *ssa.Function, pcall *ssa.Call) (q, mask helperRole) {
-	q, mask = helperRole{f, -1, -1}, helperRole{f, -1, -1}
+	q, mask = helperRole{f, -1, -1, -1}, helperRole{f, -1, -1, -1}
 	// the query input is what reaches the scanner entry's first argument (a name, or a value of an enumeration)
 	var qArg ssa.Value
 	if pcall != nil && len(pcall.Call.Args) > 0 {
@@ -113,6 +129,23 @@ func helperRoles(f *ssa.Function, pcall *ssa.Call) (q, mask helperRole) {
 		}
 		if core.IsString(p.Type()) || (qArg != nil && qArg == ssa.Value(p)) {
 			q.param = i
+		}
+	}
+	// an options struct: the field that reaches the scanner entry is the query, an int field the mask
+	for i, p := range f.Params {
+		st, ok := p.Type().Underlying().(*types.Struct)
+		if !ok || q.param >= 0 && mask.param >= 0 {
+			continue
+		}
+		for fi := 0; fi < st.NumFields(); fi++ {
+			cand := helperRole{f, i, -1, fi}
+			if q.param < 0 && qArg != nil && cand.is(qArg) {
+				q = cand
+				continue
+			}
+			if b, ok := st.Field(fi).Type().Underlying().(*types.Basic); ok && b.Kind() == types.Int && mask.param < 0 {
+				mask = cand
+			}
 		}
 	}
 	for i, fv := range f.FreeVars {
@@ -161,6 +194,50 @@ func (r helperRole) constOf(n *tree.Node) (v interface{}, fwd bool, pos token.Po
 		}
 		args := ci.Common().Args
 		fwd = len(n.DetFn.Params) >= 2 && args[0] == ssa.Value(n.DetFn.Params[0]) && args[1] == ssa.Value(n.DetFn.Params[1])
+		if r.field >= 0 {
+			// the argument is a struct literal: the constant stored in this field (once), zero value when unset
+			ld, ok := args[r.param].(*ssa.UnOp)
+			if !ok || ld.Op != token.MUL {
+				return nil, fwd, ci.Pos(), false
+			}
+			al, ok := ld.X.(*ssa.Alloc)
+			if !ok {
+				return nil, fwd, ci.Pos(), false
+			}
+			var val ssa.Value
+			for _, ref := range *al.Referrers() {
+				fa, ok := ref.(*ssa.FieldAddr)
+				if !ok {
+					if _, isLd := ref.(*ssa.UnOp); isLd {
+						continue
+					}
+					if _, isDbg := ref.(*ssa.DebugRef); isDbg {
+						continue
+					}
+					return nil, fwd, ci.Pos(), false
+				}
+				if fa.Field != r.field {
+					continue
+				}
+				for _, r2 := range *fa.Referrers() {
+					st, isSt := r2.(*ssa.Store)
+					if !isSt || val != nil {
+						return nil, fwd, ci.Pos(), false
+					}
+					val = st.Val
+				}
+			}
+			if val == nil {
+				return nil, fwd, ci.Pos(), false
+			}
+			if k, isK := core.ConstInt(val); isK {
+				return k, fwd, ci.Pos(), true
+			}
+			if k, isK := core.ConstString(val); isK {
+				return k, fwd, ci.Pos(), true
+			}
+			return nil, fwd, ci.Pos(), false
+		}
 		if k, isK := core.ConstInt(args[r.param]); isK {
 			return k, fwd, ci.Pos(), true
 		}
